@@ -1332,10 +1332,51 @@ def restore_loop_targets(fn, ref_loops, known_locals):
     if not match(loop.target, ref_t):
       continue
     ren = {a: b for a, b in pairs if a != b}
-    if not ren or any(a in known_locals for a in ren) or any(
-        b in used for b in ren.values()):
+    if not ren or any(a in known_locals for a in ren):
       continue
-    for n in ast.walk(fn):
+
+    def reusable(b):
+      # the reference uses one index name for several loops: fine when the
+      # name is only ever a loop variable here as well and no loop that
+      # binds it contains, or is contained in, this loop
+      if b not in used:
+        return True
+      n_ref = sum(1 for _, tg in ref_loops or [] if b in tg.replace(
+          '(', ' ').replace(')', ' ').replace(',', ' ').split())
+      if n_ref < 2:
+        return False
+      for other in ast.walk(fn):
+        if isinstance(other, ast.For) and other is not loop and any(
+            isinstance(x, ast.Name) and x.id == b
+            for x in ast.walk(other.target)):
+          if any(x is loop for x in ast.walk(other)) or any(
+              x is other for x in ast.walk(loop)):
+            return False
+      stores = [x for x in ast.walk(fn) if isinstance(x, ast.Name) and
+                x.id == b and isinstance(x.ctx, (ast.Store, ast.Del))]
+      targets = [x for l2 in ast.walk(fn) if isinstance(l2, ast.For)
+                 for x in ast.walk(l2.target) if isinstance(x, ast.Name) and
+                 x.id == b]
+      if len(stores) != len(targets):
+        return False
+      # every read of b sits inside a loop that binds it
+      for x in ast.walk(fn):
+        if isinstance(x, ast.Name) and x.id == b and isinstance(
+            x.ctx, ast.Load) and not any(
+                isinstance(l2, ast.For) and any(
+                    isinstance(y, ast.Name) and y.id == b
+                    for y in ast.walk(l2.target)) and any(
+                        y is x for y in ast.walk(l2))
+                for l2 in ast.walk(fn)):
+          return False
+      return True
+    if not all(reusable(b) for b in ren.values()):
+      continue
+    # the new names must not be used outside this loop
+    if any(isinstance(x, ast.Name) and x.id in ren and not any(
+        y is x for y in ast.walk(loop)) for x in ast.walk(fn)):
+      continue
+    for n in ast.walk(loop):
       if isinstance(n, ast.Name) and n.id in ren:
         n.id = ren[n.id]
     used = _names_outside_comprehensions(fn)
@@ -1433,6 +1474,36 @@ def restore_renamed_locals(fn, ref_shapes, known_locals, ref_flat=None):
             n.id = l
         done = True
         break
+      if len(sh) >= 2 and len(rivals) == 1:
+        # one reference local defined k times <- k new locals defined once
+        # each, with the same shapes in the same order and disjoint lives
+        # (a block that re-used a name was extracted / copied with fresh
+        # names)
+        singles = []
+        for u, s2 in fresh.items():
+          if len(s2) == 1 and s2[0] in sh:
+            d = [n for n in ast.walk(fn) if isinstance(n, ast.Name) and
+                 n.id == u and isinstance(n.ctx, (ast.Store, ast.Del))]
+            if len(d) == 1:
+              singles.append(((d[0].lineno, d[0].col_offset), u, s2[0]))
+        singles.sort()
+        if len(singles) == len(sh) and [x[2] for x in singles] == list(sh):
+          ok = True
+          for k, (pos, u, _) in enumerate(singles):
+            nxt = singles[k + 1][0] if k + 1 < len(singles) else (10**9, 0)
+            for n in ast.walk(fn):
+              if isinstance(n, ast.Name) and n.id == u and isinstance(
+                  n.ctx, ast.Load) and not (
+                      pos <= (n.lineno, n.col_offset) and
+                      (n.lineno, n.col_offset) < nxt):
+                ok = False
+          if ok:
+            names = {u for _, u, _ in singles}
+            for n in ast.walk(fn):
+              if isinstance(n, ast.Name) and n.id in names:
+                n.id = l
+            done = True
+            break
       if ref_flat and 1 < len(cands) == len(rivals) <= 3:
         # symmetric locals (lhs_* / rhs_*): the assignment of new names to
         # reference names that brings the function closest to its reference
@@ -1916,6 +1987,7 @@ def normalise_module(modname, tree):
         restore_loop_targets(fn, inv[q].get('loops'), known)
         restore_renamed_locals(fn, inv[q].get('defs'), known,
                                inv[q].get('flat'))
+        restore_loop_targets(fn, inv[q].get('loops'), known)
         split_tuple_assignments(fn)
         expand_kwargs_dicts(fn, known)
         coalesce_copies(fn, known)
